@@ -946,6 +946,12 @@ pub fn c13_directory_level(tier: Tier) -> DirLevel {
             Entry::Dir { name: "y".into(), children: vec![file("Pool.sol", SRC_PQ.as_bytes())] },
             Entry::Dir { name: "z".into(), children: vec![file("IERC20.sol", SRC_P.as_bytes())] },
         ],
+        // byte-identical content under different names, in one directory and in a sub-directory
+        vec![
+            file("Vault.sol", SRC_PQ.as_bytes()),
+            file("VaultBackup.sol", SRC_PQ.as_bytes()),
+            Entry::Dir { name: "lib".into(), children: vec![file("VaultCopy.sol", SRC_PQ.as_bytes()), file("Other.sol", SRC_P.as_bytes())] },
+        ],
     ];
     let o = |n: &str| opt::str_to_optimization(n);
     let v = |n: &str| vul::str_to_vulnerability(n);
